@@ -304,23 +304,57 @@ def _search_files(pid, tier, seed, want):
     return [("search-random-and-families", p, {"families": NOLABEL + ["multigraph+weighted classes"]})]
 
 
-def c11(pid, tier, seed):
+def _algo_models(pid, tier, which):
+    """SearchAlgo.tla: the algorithms as implemented, model checked on all graphs within bounds."""
+    q = tier == "quick"
+    jobs = []
+    if "bfs" in which:
+        jobs += [("bfs-D", "bfs", True, 3 if q else 4, (1,)), ("bfs-U", "bfs", False, 4 if q else 5, (1,)),
+                 ("allpred-D", "allpred", True, 3 if q else 4, (1,)), ("allpred-U", "allpred", False, 4 if q else 5, (1,))]
+    if "dijkstra" in which:
+        jobs += [("dijkstra-D", "dijkstra", True, 2 if q else 3, (0, 1, 2) if q else (0, 1)),
+                 ("dijkstra-U", "dijkstra", False, 3 if q else 4, (0, 1, 2) if q else (0, 1))]
+    out, viol = [], []
+    with concurrent.futures.ThreadPoolExecutor(max_workers=3) as ex:
+        futs = [ex.submit(algo.run_search_algo, pid, j[0], j[1], j[2], j[3], j[4], "fixed", 5 if q else 8) for j in jobs]
+        for f in futs:
+            out.append(f.result())
+    for r in out:
+        tl = r["tlc"]
+        if tl["violation"]:
+            path = os.path.join(vf.REPLAYS, "%s-%s-tlc.json" % (pid, r["cases"].replace(":", "-")))
+            os.makedirs(vf.REPLAYS, exist_ok=True)
+            with open(path, "w") as f:
+                json.dump({"kind": "tlc", "cases": r["cases"], "violation": tl["violation"], "log": r["tlc_log"]}, f, indent=1)
+            viol.append({"replay": path, "what": "TLC: %s in the algorithm model %s" % (tl["violation"], r["cases"])})
+        elif not tl["ok"]:
+            raise vf.Infra("TLC did not finish on %s: %s (%s)" % (r["cases"], tl["error"], r["tlc_log"]))
+    return out, viol
+
+
+def _search_property(pid, tier, seed, bfs, dijkstra):
     ah = vf.build_ah("o1")
-    results, violations = run_all(pid, _search_sets(tier, dijkstra=False), _search_files(pid, tier, seed, {"search"}), seed, ah)
-    violations = [v for v in violations if "scans" not in v["what"] or True]
-    return violations, coverage_of(results), ALGO_ASSUMPTIONS
+    want = set()
+    if bfs:
+        want.add("search")
+    if dijkstra:
+        want.add("dijkstra")
+    results, violations = run_all(pid, _search_sets(tier, bfs=bfs, dijkstra=dijkstra),
+                                  _search_files(pid, tier, seed, want), seed, ah)
+    m, mv = _algo_models(pid, tier, (["bfs"] if bfs else []) + (["dijkstra"] if dijkstra else []))
+    return violations + mv, coverage_of(results + m), ALGO_ASSUMPTIONS
+
+
+def c11(pid, tier, seed):
+    return _search_property(pid, tier, seed, True, False)
 
 
 def c12(pid, tier, seed):
-    ah = vf.build_ah("o1")
-    results, violations = run_all(pid, _search_sets(tier, bfs=False), _search_files(pid, tier, seed, {"dijkstra"}), seed, ah)
-    return violations, coverage_of(results), ALGO_ASSUMPTIONS
+    return _search_property(pid, tier, seed, False, True)
 
 
 def c19(pid, tier, seed):
-    ah = vf.build_ah("o1")
-    results, violations = run_all(pid, _search_sets(tier), _search_files(pid, tier, seed, {"search", "dijkstra"}), seed, ah)
-    return violations, coverage_of(results), ALGO_ASSUMPTIONS
+    return _search_property(pid, tier, seed, True, True)
 
 
 def c07_algo_sets(tier):
